@@ -457,10 +457,21 @@ fn c11(run: &Run) -> i32 {
                 Err(e) => run.machinery_error(format!("rook cycle script ({p},{q}): {e}")),
             }
         });
+        // and one of them with every other legal move made and taken back at every ply: the verdicts after a take-back
+        // (clock and history restored) are judged as well
+        {
+            let (seed, script) = ops::rook_cycle_script(7, 8, 300, true);
+            match ops::run_script(&ctx, om, &seed, &script, &total) {
+                Ok(n) => {
+                    nodes.fetch_add(n, std::sync::atomic::Ordering::Relaxed);
+                }
+                Err(e) => run.machinery_error(format!("rook cycle script with take-backs: {e}")),
+            }
+        }
         let n = nodes.load(std::sync::atomic::Ordering::Relaxed);
         run.merge_counts(&total.lock().unwrap());
         total.lock().unwrap().clear();
-        run.family("E2-LONG-CYCLES", "42 scripted histories (white rook cycling over p = 2..7 squares of rank 1, black rook over q = 2..8 squares of rank 8): recurrence distances 4..112 plies, each played for max(120, 4 lcm(p,q) + 7) plies (at most 470)", n, n, true, "every node: repetition and fifty-move verdicts vs the path");
+        run.family("E2-LONG-CYCLES", "42 scripted histories (white rook cycling over p = 2..7 squares of rank 1, black rook over q = 2..8 squares of rank 8): recurrence distances 4..112 plies, each played for max(120, 4 lcm(p,q) + 7) plies (at most 470); the (7,8) history once more for 300 plies with every legal move made and taken back at every ply", n, n, true, "every node: repetition and fifty-move verdicts vs the path");
         s += n;
         t += n;
     }
